@@ -4,6 +4,7 @@ package main
 // (transitively over a CHA-style call graph of the loaded packages).
 
 import (
+	"fmt"
 	"go/types"
 	"sort"
 	"strings"
@@ -13,6 +14,7 @@ import (
 
 type ModSet struct {
 	top bool
+	pats []string // prefix patterns ("H|core/state.*" is stored as "H|core/state.")
 	m   map[string]bool
 	// root[n]: bit k (k<62) = written through an object reachable from parameter k;
 	// bit 63 = written through anything else (absolute). Only meaningful in summaries.
@@ -38,7 +40,38 @@ func (s *ModSet) addRoot(n string, mask uint64) bool {
 	return true
 }
 
-func (s *ModSet) has(n string) bool { return s.top || s.m[n] }
+func (s *ModSet) has(n string) bool {
+	if s.top || s.m[n] {
+		return true
+	}
+	for _, p := range s.pats {
+		if strings.HasPrefix(n, p) {
+			return true
+		}
+	}
+	return false
+}
+
+func (s *ModSet) addPattern(p string) bool {
+	if p == "*" {
+		if s.top {
+			return false
+		}
+		s.top = true
+		return true
+	}
+	if strings.HasSuffix(p, "*") {
+		pre := strings.TrimSuffix(p, "*")
+		for _, q := range s.pats {
+			if q == pre {
+				return false
+			}
+		}
+		s.pats = append(s.pats, pre)
+		return true
+	}
+	return s.add(p)
+}
 
 func (s *ModSet) union(o *ModSet) bool {
 	if o == nil {
@@ -54,6 +87,11 @@ func (s *ModSet) union(o *ModSet) bool {
 	ch := false
 	for k := range o.m {
 		if s.addRoot(k, rootAbs) {
+			ch = true
+		}
+	}
+	for _, p := range o.pats {
+		if s.addPattern(p + "*") {
 			ch = true
 		}
 	}
@@ -191,6 +229,11 @@ func (s *ModSet) unionCall(o *ModSet, argRoots []int) bool {
 			ch = true
 		}
 	}
+	for _, p := range o.pats {
+		if s.addPattern(p + "*") {
+			ch = true
+		}
+	}
 	return ch
 }
 
@@ -199,6 +242,9 @@ func (s *ModSet) list() []string {
 		return []string{"*"}
 	}
 	var out []string
+	for _, p := range s.pats {
+		out = append(out, p+"*")
+	}
 	for k := range s.m {
 		out = append(out, k)
 	}
@@ -379,6 +425,14 @@ func (e *Engine) computeSummaries() {
 
 func (e *Engine) directSummary(fn *ssa.Function) *fnSummary {
 	s := &fnSummary{mods: newModSet()}
+	if ct := e.contracts[fn]; ct != nil && ct.HasMod {
+		// declared frame (verified by frame obligations, or assumed when the contract is trusted)
+		for _, m := range ct.Modifies {
+			s.mods.addPattern(m)
+		}
+		e.contractGhostMods(ct, s.mods)
+		return s
+	}
 	if override, ok := e.modOverride[fn.String()]; ok {
 		for _, n := range override {
 			s.mods.add(n)
@@ -467,6 +521,12 @@ func (e *Engine) callMods(x ssa.CallInstruction, s *fnSummary, seen map[*ssa.Fun
 	if com.IsInvoke() {
 		if ic := e.ifaceContract(com.Value.Type(), com.Method.Name()); ic != nil {
 			e.contractGhostMods(ic, s.mods)
+			if ic.HasMod {
+				for _, m := range ic.Modifies {
+					s.mods.addPattern(m)
+				}
+				return
+			}
 		}
 		impls := e.implementations(com.Value.Type(), com.Method)
 		if len(impls) == 0 {
@@ -607,8 +667,8 @@ func (e *Engine) instrMods(in ssa.Instruction, ms *ModSet) {
 		ms.union(tmp.mods)
 		for _, cal := range tmp.callees {
 			ms.union(e.summaryOf(cal).mods)
-			// callee-local allocations also change arrays relative to a loop entry
-			ms.union(e.allocMods(cal))
+			// Writes of the callee into objects it allocated itself need not be counted: those
+			// references are fresh relative to the loop entry, where the entry arrays are unconstrained.
 		}
 		com := x.Common()
 		if b, ok := com.Value.(*ssa.Builtin); ok && b.Name() == "append" {
@@ -844,6 +904,43 @@ func (e *Engine) contractGhostMods(ct *Contract, ms *ModSet) {
 			for name := range e.ghosts {
 				ms.add("G|" + name)
 			}
+		}
+	}
+}
+
+// explainTop prints why a function's summary is "modifies everything".
+func (e *Engine) explainTop(fn *ssa.Function, depth int, seen map[string]bool) {
+	if seen[fn.String()] || depth > 6 {
+		return
+	}
+	seen[fn.String()] = true
+	s := e.summaryOf(fn)
+	ind := strings.Repeat("  ", depth)
+	if !s.mods.top {
+		if depth == 0 {
+			fmt.Printf("%s%s: not top: %v\n", ind, fn.String(), s.mods.list())
+		}
+		return
+	}
+	fmt.Printf("%s%s: TOP (dyn=%v)\n", ind, fn.String(), s.dyn)
+	d := e.directSummary(fn)
+	if d.mods.top {
+		fmt.Printf("%s  direct: store through unknown pointer or dynamic call\n", ind)
+		for _, b := range fn.Blocks {
+			for _, in := range b.Instrs {
+				if ci, ok := in.(ssa.CallInstruction); ok {
+					tmp := &fnSummary{mods: newModSet()}
+					e.callMods(ci, tmp, map[*ssa.Function]bool{})
+					if tmp.mods.top {
+						fmt.Printf("%s    dynamic/top call: %s at %s\n", ind, in.String(), e.posString(in.Pos()))
+					}
+				}
+			}
+		}
+	}
+	for _, cal := range d.callees {
+		if e.summaryOf(cal).mods.top {
+			e.explainTop(cal, depth+1, seen)
 		}
 	}
 }
